@@ -14,12 +14,20 @@ Definition agree (parse : bytes -> option (list oid)) (s1 s2 : store) : Prop :=
   forall D b1 b2, lookup D s1 = Some b1 -> lookup D s2 = Some b2 -> parse b1 = parse b2.
 Definition coherent (i : t_in) : Prop :=
   agree (t_parse i) (status_cache i) (t_src i) /\ agree (t_parse i) (status_cache i) (t_dst i).
-(* the destination index only knows objects that are in the destination (C12) *)
+(* the destination index only knows objects that are in the destination (C12) - or it is stale
+   in the way status() detects and repairs by clearing it: the query contains a directory and an
+   indexed directory object has vanished from the destination (remote garbage collection removes
+   directory objects together with files) *)
+Definition ix_detected (i : t_in) (x : rindex) : Prop :=
+  dedup (filter is_dir_oid (t_req i)) <> [] /\ forallb (has (t_dst i)) (ix_dirs x) = false.
 Definition ix_sound (i : t_in) : Prop :=
   match t_dix i with
   | None => True
-  | Some x => forall o, ix_has x o = true -> has (t_dst i) o = true
+  | Some x => ix_detected i x \/ forall o, ix_has x o = true -> has (t_dst i) o = true
   end.
+(* a truncated directory object (interrupted non-atomic upload) does not parse as a listing *)
+Definition trunc_unparsable (i : t_in) : Prop :=
+  forall o, is_dir_oid o = true -> t_parse i (t_trunc i o) = None.
 (* the request lists every directory together with its files, or asks for expansion *)
 Definition closed_request (i : t_in) : Prop :=
   t_shallow i = false \/
@@ -32,7 +40,8 @@ Record wf (i : t_in) : Prop := {
   wf_coh : coherent i;
   wf_closed : closed (t_parse i) (t_dst i);
   wf_ix : ix_sound i;
-  wf_req : closed_request i }.
+  wf_req : closed_request i;
+  wf_trunc : trunc_unparsable i }.
 
 (* ---- collect ---- *)
 Lemma load_ok_inv parse s o l : load parse s o = LoadOk l -> exists b, lookup o s = Some b /\ parse b = Some l.
@@ -142,7 +151,9 @@ Lemma status_ix_spec parse odb cache ix sh req ex miss ix' :
     (forall o, In o ex \/ In o miss <-> In o h0) /\
     (forall o, In o miss -> has odb o = false) /\
     (closed parse odb -> agree parse cache odb ->
-     (forall x, ix = Some x -> forall o, ix_has x o = true -> has odb o = true) ->
+     (forall x, ix = Some x ->
+        (dedup (filter is_dir_oid req) <> [] /\ forallb (has odb) (ix_dirs x) = false) \/
+        forall o, ix_has x o = true -> has odb o = true) ->
      forall o, In o ex -> has odb o = true).
 Proof.
   unfold status_ix. destruct (collect parse cache sh req) as [k|h0] eqn:EC; [discriminate|].
@@ -158,8 +169,9 @@ Proof.
     + intros o Ho. apply filter_In in Ho. destruct Ho as [_ Ho]. now apply negb_true_iff in Ho.
     + intros Hcl Hag Hx o Ho.
       assert (Hx1 : forall o, ix_has x1 o = true -> has odb o = true).
-      { unfold x1. destruct rdirs; [apply (Hx x eq_refl)|].
-        destruct (forallb (has odb) (ix_dirs x)); [apply (Hx x eq_refl)|]. intros o' H'. discriminate. }
+      { unfold x1. destruct (Hx x eq_refl) as [[Hne Hfb]|Hsd].
+        - fold rdirs in Hne. destruct rdirs; [congruence|]. rewrite Hfb. intros o' H'. discriminate.
+        - destruct rdirs; auto. destruct (forallb (has odb) (ix_dirs x)); auto. intros o' H'. discriminate. }
       destruct (indexed_loop_sound parse cache odb Hcl Hag _ _ _ _ EL) as [A B]; auto.
       { intros d Hd. apply filter_In in Hd. destruct Hd as [Hd1 Hd2]. split; auto.
         unfold rdirs in Hd1. apply (proj1 (dedup_In _ _)) in Hd1. apply filter_In in Hd1. tauto. }
